@@ -626,10 +626,8 @@ fn reference(s: &[u8]) -> RefOut {
 fn explain(cl: &Classes, allowed: &[&'static str]) -> &'static str {
     for c in allowed {
         let inside = match *c {
-            "F3-empty-chunk-size" => cl.f3_empty_size_line,
             "F19-head-in-band" => cl.f19_head_in_band,
             "F22-chunk-error-no-4xx" => cl.f22_chunk_error,
-            "F25-pipelined-body-split" => cl.f25_pipelined_body_split,
             _ => false,
         };
         if inside {
@@ -666,7 +664,7 @@ fn judge(a: &Outcome, base: &Outcome, b: Option<&Disp>, r: &RefOut) -> (bool, St
     if base.msgs != r.msgs || !expect_end_ok(base) {
         fails.push((
             format!("implementation differs from RFC 7230 reference: impl {} ; reference end {:?} with {} message(s)", show_outcome(base), r.end, r.msgs.len()),
-            explain(cl, &["F3-empty-chunk-size", "F19-head-in-band"]),
+            explain(cl, &["F19-head-in-band"]),
         ));
     }
     // (iii) dispatcher level
@@ -677,25 +675,25 @@ fn judge(a: &Outcome, base: &Outcome, b: Option<&Disp>, r: &RefOut) -> (bool, St
                 let want: u16 = if *c == "431" { 431 } else { 400 };
                 if d.own_statuses != vec![want] {
                     let allowed: &[&'static str] = if *c == "chunk" {
-                        &["F3-empty-chunk-size", "F22-chunk-error-no-4xx"]
+                        &["F22-chunk-error-no-4xx"]
                     } else {
-                        &["F19-head-in-band", "F25-pipelined-body-split"]
+                        &["F19-head-in-band"]
                     };
                     fails.push((format!("rejected stream ({c}): dispatcher's own responses {:?}, want [{want}]", d.own_statuses), explain(cl, allowed)));
                 }
                 if !d.closed {
-                    fails.push(("rejected stream: connection not closed".into(), explain(cl, &["F3-empty-chunk-size", "F19-head-in-band"])));
+                    fails.push(("rejected stream: connection not closed".into(), explain(cl, &["F19-head-in-band"])));
                 }
                 if d.dispatched > nref {
                     fails.push((
                         format!("{} requests dispatched, only {} precede the rejection point", d.dispatched, nref),
-                        explain(cl, &["F3-empty-chunk-size", "F19-head-in-band"]),
+                        explain(cl, &["F19-head-in-band"]),
                     ));
                 }
                 if *c != "chunk" && d.dispatched < nref {
                     fails.push((
                         format!("only {} requests dispatched, {} precede the rejection point", d.dispatched, nref),
-                        explain(cl, &["F19-head-in-band", "F25-pipelined-body-split"]),
+                        explain(cl, &["F19-head-in-band"]),
                     ));
                 }
             }
@@ -703,7 +701,7 @@ fn judge(a: &Outcome, base: &Outcome, b: Option<&Disp>, r: &RefOut) -> (bool, St
                 if !d.own_statuses.is_empty() || d.dispatched != nref {
                     fails.push((
                         format!("accepted stream: dispatcher's own responses {:?}, dispatched {} of {}", d.own_statuses, d.dispatched, nref),
-                        explain(cl, &["F19-head-in-band", "F25-pipelined-body-split"]),
+                        explain(cl, &["F19-head-in-band"]),
                     ));
                 }
             }
@@ -744,8 +742,10 @@ fn emit_case(em: &mut Emitter, id: String, mut case: Case) {
     r.classes.f25_pipelined_body_split = r.spans.iter().enumerate().any(|(i, (he, be))| {
         i >= 1 && ends.iter().any(|&c| *he <= c && be.map_or(true, |e| c < e))
     });
+    // (was finding F25, repaired by /repo ceacb93: the dispatched-request count is compared in
+    // these cases too; the predicate is kept as a distribution tag)
     if case.with_b != 0 {
-        case.with_b = if r.classes.f25_pipelined_body_split { 2 } else { 1 };
+        case.with_b = 1;
     }
     let res = catch(|| {
         let a = run_a(&segs);
@@ -762,10 +762,10 @@ fn emit_case(em: &mut Emitter, id: String, mut case: Case) {
         tags.push("runner:B".into());
     }
     if r.classes.f25_pipelined_body_split {
-        tags.push("class:F25".into());
+        tags.push("split:pipelined-body".into());
     }
     if r.classes.f3_empty_size_line {
-        tags.push("class:F3".into());
+        tags.push("chunk:empty-size-line".into());
     }
     if r.classes.f19_head_in_band {
         tags.push("class:F19".into());
